@@ -152,7 +152,7 @@ def install(ex):
         return h
 
     for fname in ('sin', 'cos', 'exp', 'log', 'sqrt', 'pow', 'cbrt', 'atan2', 'exp2', 'acos', 'asin', 'atan', 'tan',
-                  'ceil', 'floor', 'log2', 'log10'):
+                  'ceil', 'floor', 'log2', 'log10', 'fmod', 'hypot', 'sinh', 'cosh', 'tanh', 'expm1', 'log1p', 'round', 'trunc', 'remainder'):
         I[fname] = _mk_libm(fname)
         I['llvm.%s.f64' % fname] = _mk_libm(fname)
 
